@@ -132,6 +132,9 @@ def r2(ctx, facts, attrs):
             ok = len(cs) >= 1 and all(x is not None and x[0] == ename and not x[1] and x[2] for x in gs)
             ctx.ob("C12.R2a", "format:%s" % ename, ok,
                    "%s is set (%d site(s)) only under its own 'used in the pattern' guard: %s" % (ename, len(cs), [x[0] if x else None for x in gs]), fn=f)
+        if ename not in SOURCE:
+            ctx.note("attribute %s has no confirmed source in the rule table: its wiring is checked (R1, R2a), its source is not" % ename)
+            continue
         kind, what = SOURCE[ename]
         ok = bool(cs)
         for c in cs:
